@@ -1158,7 +1158,7 @@ func (g *Gengine) ExecuteSelectedNSortMConcurrent(nSort, mConcurrent int, rb *bu
 		if rule, ok := rb.Kc.RuleEntities[v]; ok {
 			rules = append(rules, rule)
 		} else {
-			return errors.New(fmt.Sprintf("not exist rule:%s", rule.RuleName))
+			return errors.New(fmt.Sprintf("not exist rule:%s", v))
 		}
 	}
 
@@ -1251,7 +1251,7 @@ func (g *Gengine) ExecuteSelectedNConcurrentMSort(nConcurrent, mSort int, rb *bu
 		if rule, ok := rb.Kc.RuleEntities[v]; ok {
 			rules = append(rules, rule)
 		} else {
-			return errors.New(fmt.Sprintf("not exist rule:%s", rule.RuleName))
+			return errors.New(fmt.Sprintf("not exist rule:%s", v))
 		}
 	}
 
@@ -1350,7 +1350,7 @@ func (g *Gengine) ExecuteSelectedNConcurrentMConcurrent(nConcurrent, mConcurrent
 		if rule, ok := rb.Kc.RuleEntities[v]; ok {
 			rules = append(rules, rule)
 		} else {
-			return errors.New(fmt.Sprintf("not exist rule:%s", rule.RuleName))
+			return errors.New(fmt.Sprintf("not exist rule:%s", v))
 		}
 	}
 
